@@ -26,7 +26,9 @@ FR = ['>>> ', '... ', '>>>', '...', '\n', '    ', 'x = 1', '(', ')', '[', ']', "
       # directive prefixes in other spellings, unbalanced either way; a google block header with its indentation
       '# XDOCTEST: +SKIP)', '# Doctest: +REQUIRES(', '# xdoc: +SKIP(', 'Example:\n    ', 'Doctest:\n    >>> ',
       # whitespace that str.strip() removes but that is neither a blank nor a line break for splitlines()
-      '\x1f', '\xa0']
+      '\x1f', '\xa0',
+      # google section headers written with blanks before the colon / with a double colon (both are recognised headers)
+      'Example :\n    ', 'Returns :\n    x\n', 'Example ::\n    >>> ']
 STYLES = ('auto', 'google', 'freeform')
 PROMPTS = ('>>>', '...')
 
